@@ -206,6 +206,38 @@ def structural_requests(quick):
     return out
 
 
+def sparse_nonfinite_requests(maxn):
+    """a residual evaluation answers NaN / +inf / -inf in exactly one component and exact 0.0 in all the others
+    (every position, last one included), all-NaN, and NaN next to a tiny non-zero component; at the first
+    evaluation and after k = 1, 2 successful steps; then the oracle converges (S) or fails (F).
+    A correct driver must never return success on such an answer: its norm is not finite."""
+    out = []
+    for solver in SOLVERS:
+        for n in range(2, maxn + 1):
+            reg = [2.0 if i == j else 0.0 for i in range(n) for j in range(n)]
+            step = (True, 2, [3.0] + [4.0] * (n - 1), reg)        # finite residual, regular matrix: a correction
+            pats = []
+            for pos in range(n):
+                for v in (NAN, INF, -INF):
+                    f = [0.0] * n
+                    f[pos] = v
+                    pats.append(f)
+                    g = [1e-300] * n                              # the same next to tiny non-zero components
+                    g[pos] = v
+                    pats.append(g)
+                    h = [-0.0] * n
+                    h[pos] = v
+                    pats.append(h)
+            pats.append([NAN] * n)
+            pats.append([INF] * n)
+            for f in pats:
+                for k in (0, 1, 2):
+                    for d in ((True, 1, [1e-14] * n, None), (False, 0, None, None)):
+                        out.append(Req(solver, n, 6, 1e-8, [1.0] * n, identity(n), [0.0] * n, [0.0] * n,
+                                       identity(n), d, [step] * k + [(True, 1, f, None)], cls="sparse-nonfinite"))
+    return out
+
+
 def tie_requests():
     """convergence criterion exactly on the boundary: norm == epsilon (must NOT converge: `e < epsilon`)"""
     out = []
@@ -267,8 +299,18 @@ def poly_residual(req, zbits):
     return out
 
 
+def ulps(a, b):
+    """distance in units in the last place between two finite doubles of the same sign (else a large number)"""
+    if a != a or b != b or abs(a) == INF or abs(b) == INF or (a < 0) != (b < 0):
+        return 1 << 62
+    return abs(struct.unpack("<q", struct.pack("<d", a))[0] - struct.unpack("<q", struct.pack("<d", b))[0])
+
+
 def property_violations(req, line):
-    """list of (key, description) for the clauses of C08 violated by this implementation trace"""
+    """list of (key, description) for the clauses of C08 violated by this implementation trace.
+    A key starting with "corr:" is NOT a failing input of the property (a reported norm that differs from the
+    recomputed one by rounding only, with a finite residual that satisfies the criterion): it is reported as a
+    correspondence break."""
     p = parse_trace(line)
     if p is None:
         return [("malformed", "no trace: %r" % line[:120])]
@@ -306,15 +348,27 @@ def property_violations(req, line):
         if fb != fin["f"]:
             bad.append(("fzeros-modified", "returned fzeros differ from the last residual evaluation"))
         e = unhx(nrm[1])
+        comps = [unhx(x) for x in fin["f"]]
+        nonfinite = [i for i, x in enumerate(comps) if x != x or abs(x) == INF]
+        if nonfinite:
+            bad.append(("non-finite-residual", "success claimed with a non-finite residual: fzeros[%d] = %r (fzeros = %s), reported norm %r"
+                        % (nonfinite[0], comps[nonfinite[0]], [("nan" if x != x else x) for x in comps], e)))
         if e != e or e in (INF, -INF):
             bad.append(("non-finite-norm", "success with residual norm %s" % nrm[1]))
         if not (e < req.eps):
             bad.append(("criterion", "success with norm %r not < epsilon %r" % (e, req.eps)))
         if c[1] != "1":
             bad.append(("criterion-flag", "success with checkConvergence = false"))
-        ne = fnorm(fin["f"])
-        if not (ne != ne and e != e) and hx(ne) != nrm[1] and nrm[1] != "nan":
-            bad.append(("norm-of-returned-residual", "reported norm %s is not the norm of the returned residual (%s)" % (nrm[1], hx(ne))))
+        ne = fnorm(fin["f"])        # independent recomputation (sum of squares left to right, sqrt)
+        if not nonfinite and e == e and hx(ne) != nrm[1]:
+            if ne == ne and abs(ne) != INF and not (ne < req.eps) and ulps(e, ne) > 4:
+                bad.append(("criterion", "success although the norm of the returned residual, %r, is not < epsilon %r (reported norm %r)"
+                            % (ne, req.eps, e)))
+            else:
+                # rounding-level difference (or a naive recomputation that overflows) with a finite residual
+                # that satisfies the criterion: the property holds on this run
+                bad.append(("corr:norm-of-returned-residual", "reported norm %s differs from the recomputed norm of the returned residual %s (%s ulp); the residual is finite and the criterion holds"
+                            % (nrm[1], hx(ne), ulps(e, ne) if ulps(e, ne) < (1 << 62) else "many")))
         # ground truth of the oracle: the last call's script entry, on the returned unknowns
         ent = req.entry_of_call(fin["calls"] - 1)
         if not ent[0]:
@@ -328,7 +382,8 @@ def property_violations(req, line):
     last_good = -1
     for k, e in enumerate(evs):
         if e[0] == "R":
-            if e[2] == "0":
+            fvals = [unhx(x) for x in e[e.index("f") + 1:]]
+            if e[2] == "0" or any(x != x or abs(x) == INF for x in fvals):
                 last_bad = k
             else:
                 last_good = k
@@ -400,7 +455,7 @@ def run(ck):
         for m, msg in ck.leanchecker(PROPS):
             ck.violation("leanchecker:" + m, "leanchecker rejects %s" % m, {"log": msg}, False)
 
-    reqs = tie_requests() + structural_requests(ck.quick)
+    reqs = tie_requests() + sparse_nonfinite_requests(maxn) + structural_requests(ck.quick)
     n_rand = 1500 if ck.quick else 12000
     for s in SOLVERS:
         reqs += [random_request(rng, s, maxn) for _ in range(n_rand)]
@@ -468,12 +523,17 @@ def run(ck):
                 for i in range(1, len(names)):
                     if names[i] == "E" and names[i - 1] in ("I", "X"):
                         stats["restarts_halving_correction" if "D" in names[:i] else "restarts_halving_estimate"] += 1
-            if viol:
-                for key, what in viol:
-                    report("%s:%s" % (BASE, key), "%s [%s, N=%d, iterMax=%d]: %s" % (s, r.cls, r.n, r.itermax, what),
-                           {"solver": s, "site": BASE, "request": r.line, "implementation_trace": a, "model_trace": m,
-                            "violated_clause": key, "replay_cmd": "echo '<request>' | work/C08/c08_%s  (bin/check C08 rebuilds it)" % s},
-                           True)
+            corr_only = [(k_, w_) for k_, w_ in viol if k_.startswith("corr:")]
+            viol = [(k_, w_) for k_, w_ in viol if not k_.startswith("corr:")]
+            for key, what in viol:
+                report("%s:%s" % (BASE, key), "%s [%s, N=%d, iterMax=%d]: %s" % (s, r.cls, r.n, r.itermax, what),
+                       {"solver": s, "site": BASE, "request": r.line, "implementation_trace": a, "model_trace": m,
+                        "violated_clause": key, "history": a.split(";"),
+                        "replay_cmd": "echo '<request>' | work/C08/c08_%s  (bin/check C08 rebuilds it)" % s},
+                       True)
+            for key, what in corr_only:
+                report("corr:%s:%s" % (BASE, key[5:]), "%s [%s, N=%d, iterMax=%d]: %s" % (s, r.cls, r.n, r.itermax, what),
+                       {"solver": s, "request": r.line, "implementation_trace": a, "model_trace": m}, False)
             if a != m:
                 stats["disagreements"] += 1
                 if not viol:
